@@ -15,6 +15,10 @@ def var_domains(case, objs) -> List[list]:
     out = []
     for vd in case["vars"]:
         cls = CLASSES[vd.get("type", "Ent")]
+        if vd.get("decl") == "registry":
+            # every instance constructed for the case (the registry is cleared at the start of every case)
+            out.append([o for o in objs if isinstance(o, cls) and all(getattr(o, f) == dec(c) for f, c in vd.get("kw", []))])
+            continue
         out.append([objs[i] for i in case["doms"][vd["dom"]] if isinstance(objs[i], cls)
                     and all(getattr(objs[i], f) == dec(c) for f, c in vd.get("kw", []))])
     return out
